@@ -121,6 +121,16 @@ structure LMod (R : Type) where
   cs : Option R := none
   hp : Option R := none
   od : Option R := none
+  /-- `ClassicOsu::no_slider_head_accuracy` -/
+  nsha : Option Bool := none
+  /-- `MirrorOsu::reflection` (lazer's `MirrorType` as text: "0" horizontal, "1" vertical, "2" both) -/
+  mirror : Option String := none
+  /-- `DifficultyAdjustCatch::hard_rock_offsets` -/
+  hro : Option Bool := none
+  /-- `DifficultyAdjustTaiko::scroll_speed` -/
+  scroll : Option R := none
+  /-- `Random{Taiko,Mania}::seed`: an `f64` in rosu-mods; the model covers integral values -/
+  seed : Option Int := none
 
 /-- `GameMods::{Lazer, Intermode, Legacy}`.  `lazer` carries the (single) mode of its mods and
 lists them in iteration order; `Unknown…` mods are left out (no accessor ever matches them). -/
@@ -269,27 +279,83 @@ def Rep.mult {R : Type} (n : Num R) (rep : Rep R) : R :=
   | some c => n.lit c.2
   | none => n.lit multElse
 
-/-- `GameMods::hardrock_offsets`: `custom_hardrock_offsets(self).unwrap_or_else(|| self.hr())`;
-the custom value is a `DifficultyAdjustCatch` setting that default-settings mods leave `None`. -/
-def Rep.hardrockOffsets {R : Type} (rep : Rep R) : Bool := rep.hr
+/-! ### accessors that read settings of lazer mods
 
-/-- `GameMods::no_slider_head_acc(lazer)`; `ClassicOsu::no_slider_head_accuracy` defaults to `None` -/
+The arms of the `find_map` closures, transcribed as tables keyed by (`m.intermode()`, mode) — a lazer
+`GameMod` variant `<Name><Mode>` is the mod of kind `Name` in a set of mode `Mode`.  `Props/C08.lean`
+(`lazer_arm_tables_as_generated`) proves these tables equal to the ones `tools/translate.d/
+lazer_settings.py` extracts from the current source. -/
+
+/-- `reflection`, Lazer arm: `HardRockOsu(_) => Some(Vertical)`, `MirrorOsu(mr) => match
+mr.reflection.as_deref() { None => Horizontal, "1" => Vertical, "2" => Both, _ => None }`,
+`MirrorCatch(_) => Some(Horizontal)`, `_ => None`; `.unwrap_or(Reflection::None)` -/
+def reflLazerArms : List (IMod × Mode × ReflVal) :=
+  [(.HardRock, .osu, .const .vertical),
+   (.Mirror, .osu, .bySetting .horizontal [("1", .vertical), ("2", .both)] .none),
+   (.Mirror, .catch, .const .horizontal)]
+def reflLazerElse : Reflection := .none
+
+/-- `no_slider_head_acc`, Lazer arm: `ClassicOsu(cl) => Some(cl.no_slider_head_accuracy.unwrap_or(true))`
+(the `Bool` is the `unwrap_or` default); `.unwrap_or(!lazer)` -/
+def nshaLazerArms : List (IMod × Mode × Bool) := [(.Classic, .osu, true)]
+/-- Intermode arm: `mods.contains(GameModIntermode::Classic) || !lazer` -/
+def nshaIntermodeMod : IMod := .Classic
+
+/-- `custom_hardrock_offsets`, Lazer arm: `DifficultyAdjustCatch { hard_rock_offsets, .. } =>
+*hard_rock_offsets` (an unset option lets `find_map` go on) -/
+def hroLazerArms : List (IMod × Mode) := [(.DifficultyAdjust, .catch)]
+
+/-- `scroll_speed`: `DifficultyAdjustTaiko(da) => Some(da.scroll_speed)` … `.flatten()` (the first
+such mod decides, even when its option is unset) -/
+def scrollLazerArms : List (IMod × Mode) := [(.DifficultyAdjust, .taiko)]
+
+/-- `random_seed`: `RandomTaiko(m) => m.seed`, `RandomMania(m) => m.seed` … `.map(|seed| seed as i32)` -/
+def seedLazerArms : List (IMod × Mode) := [(.Random, .taiko), (.Random, .mania)]
+
+/-- (accessor, name of the setting its Lazer arm reads), one entry per arm -/
+def settingFields : List (String × String) :=
+  [("no_slider_head_acc", "no_slider_head_accuracy"), ("hardrock_offsets", "hard_rock_offsets"),
+   ("scroll_speed", "scroll_speed"), ("random_seed", "seed"), ("random_seed", "seed")]
+
+/-- the value of a `reflection` arm for a mod whose `reflection` setting is `setting` -/
+def ReflVal.eval (v : ReflVal) (setting : Option String) : Reflection :=
+  match v, setting with
+  | .const r, _ => r
+  | .bySetting u _ _, none => u
+  | .bySetting _ cs o, some s =>
+    match cs.find? (fun c => c.1 == s) with
+    | some c => c.2
+    | none => o
+
+/-- the arm (if any) of a closure that matches the mod of kind `k` in a set of mode `mode` -/
+def armFor {α : Type} (arms : List (IMod × Mode × α)) (mode : Mode) (k : IMod) : Option α :=
+  (arms.find? (fun a => a.1 == k && a.2.1 == mode)).map (·.2.2)
+
+def hasArm (arms : List (IMod × Mode)) (mode : Mode) (k : IMod) : Bool :=
+  arms.any (fun a => a.1 == k && a.2 == mode)
+
+/-- `custom_hardrock_offsets` inside `GameMods::hardrock_offsets` -/
+def Rep.customHro {R : Type} (rep : Rep R) : Option Bool :=
+  match rep with
+  | .lazer mode l => l.findSome? (fun m => if hasArm hroLazerArms mode m.kind then m.hro else none)
+  | .intermode _ | .legacy _ => none
+
+/-- `GameMods::hardrock_offsets`: `custom_hardrock_offsets(self).unwrap_or_else(|| self.hr())` -/
+def Rep.hardrockOffsets {R : Type} (rep : Rep R) : Bool := rep.customHro.getD rep.hr
+
+/-- `GameMods::no_slider_head_acc(lazer)` -/
 def Rep.noSliderHeadAcc {R : Type} (rep : Rep R) (lazer : Bool) : Bool :=
   match rep with
   | .lazer mode l =>
-    if mode == .osu && l.any (fun m => m.kind == .Classic) then true else !lazer
-  | .intermode s => s.contains .Classic || !lazer
+    (l.findSome? (fun m => (armFor nshaLazerArms mode m.kind).map (fun d => m.nsha.getD d))).getD (!lazer)
+  | .intermode s => s.contains nshaIntermodeMod || !lazer
   | .legacy _ => !lazer
 
-/-- `GameMods::reflection`; default settings (`MirrorOsu::reflection = None` → Horizontal) -/
+/-- `GameMods::reflection` -/
 def Rep.reflection {R : Type} (rep : Rep R) : Reflection :=
   match rep with
   | .lazer mode l =>
-    (l.findSome? (fun m =>
-      if m.kind == .HardRock && mode == .osu then some Reflection.vertical
-      else if m.kind == .Mirror && mode == .osu then some Reflection.horizontal
-      else if m.kind == .Mirror && mode == .catch then some Reflection.horizontal
-      else none)).getD .none
+    (l.findSome? (fun m => (armFor reflLazerArms mode m.kind).map (fun v => v.eval m.mirror))).getD reflLazerElse
   | .intermode s =>
     match reflIntermode.find? (fun c => s.contains c.1) with
     | some c => c.2
@@ -298,6 +364,29 @@ def Rep.reflection {R : Type} (rep : Rep R) : Reflection :=
     match reflLegacy.find? (fun c => legacyContains b c.1.bits) with
     | some c => c.2
     | none => reflLegacyElse
+
+/-- `Option<Option<T>>::flatten` -/
+def optFlatten {α : Type} : Option (Option α) → Option α
+  | some x => x
+  | none => none
+
+/-- `GameMods::scroll_speed` -/
+def Rep.scrollSpeed {R : Type} (rep : Rep R) : Option R :=
+  match rep with
+  | .lazer mode l =>
+    optFlatten (l.findSome? (fun m => if hasArm scrollLazerArms mode m.kind then some m.scroll else none))
+  | .intermode _ | .legacy _ => none
+
+/-- `seed as i32` for an integral `f64`: Rust's saturating float → int cast -/
+def castI32 (x : Int) : Int :=
+  if x < -2147483648 then -2147483648 else if x > 2147483647 then 2147483647 else x
+
+/-- `GameMods::random_seed` -/
+def Rep.randomSeed {R : Type} (rep : Rep R) : Option Int :=
+  match rep with
+  | .lazer mode l =>
+    (l.findSome? (fun m => if hasArm seedLazerArms mode m.kind then m.seed else none)).map castI32
+  | .intermode _ | .legacy _ => none
 
 /-- `GameMods::mania_keys` (the literal is kept so that both number systems can read it) -/
 def Rep.maniaKeys {R : Type} (rep : Rep R) : Option Lit :=
@@ -333,6 +422,8 @@ structure Snapshot where
   nshStable : Bool
   reflection : Reflection
   maniaKeys : Option Rat
+  scrollSpeed : Option Rat
+  randomSeed : Option Int
   ar : Option Rat
   cs : Option Rat
   hp : Option Rat
@@ -344,21 +435,60 @@ def Rep.snapshot (rep : Rep Rat) : Snapshot :=
   { clockRate := rep.clockRate numQ, mult := rep.mult numQ, hardrockOffsets := rep.hardrockOffsets,
     nshLazer := rep.noSliderHeadAcc true, nshStable := rep.noSliderHeadAcc false,
     reflection := rep.reflection, maniaKeys := rep.maniaKeys.map (·.q),
+    scrollSpeed := rep.scrollSpeed, randomSeed := rep.randomSeed,
     ar := rep.ar, cs := rep.cs, hp := rep.hp, od := rep.od,
     flags := hasModRows.map rep.flag }
 
 /-! ## `Difficulty` -/
 
-/-- `Difficulty { mods, clock_rate }` as far as `get_clock_rate` is concerned -/
+/-- `Difficulty { mods, clock_rate, hardrock_offsets, lazer }` as far as the getters below are
+concerned (`src/any/difficulty/mod.rs`) -/
 structure Diff (R : Type) where
   mods : Rep R
   /-- stored by `Difficulty::clock_rate(r)` after `clamp(0.01, 100.0)` -/
   clockRate : Option R
+  /-- stored by `Difficulty::hardrock_offsets(b)` -/
+  hardrockOffsets : Option Bool := none
+  /-- stored by `Difficulty::lazer(b)` -/
+  lazer : Option Bool := none
 
 /-- `Difficulty::get_clock_rate` -/
 def Diff.getClockRate {R : Type} (n : Num R) (d : Diff R) : R :=
   match d.clockRate with
   | some r => r
   | none => d.mods.clockRate n
+
+/-- `Difficulty::get_hardrock_offsets`: `self.hardrock_offsets.unwrap_or_else(|| self.mods.hardrock_offsets())` -/
+def Diff.getHardrockOffsets {R : Type} (d : Diff R) : Bool :=
+  d.hardrockOffsets.getD d.mods.hardrockOffsets
+
+/-- `Difficulty::get_lazer`: `self.lazer.unwrap_or(true)` -/
+def Diff.getLazer {R : Type} (d : Diff R) : Bool := d.lazer.getD true
+
+/-- `using_classic_slider_acc` of the osu! performance calculator
+(`src/osu/performance/mod.rs`: `get_mods().no_slider_head_acc(get_lazer())`) -/
+def Diff.usingClassicSliderAcc {R : Type} (d : Diff R) : Bool := d.mods.noSliderHeadAcc d.getLazer
+
+/-- `OsuScoreOrigin` chosen by `OsuPerformance::generate_state`:
+`match (lazer, using_classic_slider_acc) { (false, _) => Stable, (true, false) => WithSliderAcc,
+(true, true) => WithoutSliderAcc }` -/
+inductive OsuOrigin | stable | withSliderAcc | withoutSliderAcc
+  deriving DecidableEq, Repr
+
+def Diff.osuOrigin {R : Type} (d : Diff R) : OsuOrigin :=
+  match d.getLazer, d.usingClassicSliderAcc with
+  | false, _ => .stable
+  | true, false => .withSliderAcc
+  | true, true => .withoutSliderAcc
+
+/-- the `cl()` flag accessor (row of `impl_has_mod!` named "cl") -/
+def Rep.cl {R : Type} (rep : Rep R) : Bool :=
+  match hasModRows.find? (fun row => row.1 == "cl") with
+  | some row => rep.flag row
+  | none => false
+
+/-- `classic` of the mania performance calculator (`src/mania/performance/mod.rs`):
+`!self.difficulty.get_lazer() || self.difficulty.get_mods().cl()` -/
+def Diff.maniaClassic {R : Type} (d : Diff R) : Bool := !d.getLazer || d.mods.cl
 
 end Rosu.Mods
